@@ -77,7 +77,8 @@ def enc_op(op):
 
 
 def enc_scenario(sc):
-    t = ["core", "A", str(sc.get("arb", {}).get("warmup_ms", 0)), "W", str(len(sc["watchers"]))]
+    owner = sc.get("arb", {}).get("owner")
+    t = ["core", "A", str(sc.get("arb", {}).get("warmup_ms", 0)), enc(owner) if owner else "-", "W", str(len(sc["watchers"]))]
     for w in sc["watchers"]:
         t += enc_watcher(w)
     bh = sc.get("behav") or [{}]
